@@ -182,6 +182,16 @@ func LocAdd(l Term, k Term) Term {
 	return MkLoc(Obj(l), Add(Off(l), k))
 }
 
+// Elem is the address of the cell at offset k (in cells) from base: an uninterpreted function with the
+// defining axiom elem(b,k) = loc(obj b, off b + k), so that quantified facts about slice elements have a
+// syntactic trigger that survives arithmetic normalisation.
+func Elem(base, k Term) Term {
+	if k.S == "0" {
+		return base
+	}
+	return mk(SLoc, "elem", base, k)
+}
+
 // Slice helpers
 func MkSlice(ptr, ln, cp Term) Term { return mk(SSlice, "slice", ptr, ln, cp) }
 func SPtr(s Term) Term              { return mk(SLoc, "sptr", s) }
@@ -205,12 +215,12 @@ func BStr(b Term) Term           { return mk(SStr, "bstr", b) }
 var NilBytes = Term{"nilbytes", SBytes}
 
 // Str helpers (uninterpreted sort with functions; axioms in the prelude)
-func StrLen(s Term) Term       { return mk(SInt, "str.len", s) }
-func StrAt(s, i Term) Term     { return mk(SInt, "str.at", s, i) }
-func StrCat(a, b Term) Term    { return mk(SStr, "str.cat", a, b) }
-func StrSub(s, lo, hi Term) Term { return mk(SStr, "str.sub", s, lo, hi) }
-func StrLt(a, b Term) Term     { return mk(SBool, "str.lt", a, b) }
-func StrPrefix(p, s Term) Term { return mk(SBool, "str.prefix", p, s) } // p is a prefix of s
+func StrLen(s Term) Term       { return mk(SInt, "s.len", s) }
+func StrAt(s, i Term) Term     { return mk(SInt, "s.at", s, i) }
+func StrCat(a, b Term) Term    { return mk(SStr, "s.cat", a, b) }
+func StrSub(s, lo, hi Term) Term { return mk(SStr, "s.sub", s, lo, hi) }
+func StrLt(a, b Term) Term     { return mk(SBool, "s.lt", a, b) }
+func StrPrefix(p, s Term) Term { return mk(SBool, "s.prefix", p, s) } // p is a prefix of s
 
 func Forall(vars []Term, body Term, patterns ...[]Term) Term {
 	if len(vars) == 0 {
@@ -222,6 +232,19 @@ func Forall(vars []Term, body Term, patterns ...[]Term) Term {
 		fmt.Fprintf(&sb, "(%s %s)", v.S, v.Sort)
 	}
 	sb.WriteString(") ")
+	for _, p := range patterns {
+		for _, t := range p {
+			for _, bad := range []string{"(ite ", "(and ", "(or ", "(not ", "(= ", "(=> ", "(< ", "(<= ", "(> ", "(>= ", "(distinct "} {
+				if strings.Contains(t.S, bad) {
+					patterns = nil
+					break
+				}
+			}
+			if patterns == nil {
+				break
+			}
+		}
+	}
 	if len(patterns) > 0 {
 		sb.WriteString("(! ")
 		sb.WriteString(body.S)
